@@ -54,9 +54,11 @@ def run(tier, runner):
     r_stable.require(4, 'sorts feeding duplicate removal')
     r_inv.require(4, 'bulk writers')
     r_search.require(10, 'lookup members')
+    r_np = sets.node_pos(progs)
+    r_np.findings = [f for f in r_np.findings if 'FlatSet' in f.key]
     return {
-        'results': [r_cmp, r_ci, r_inv, r_stable, r_node, r_nm, r_search, r_mo] + r_w,
-        'explanation': 'C03 as stated (same elements / results as std::set over histories) is not decided.  Decided structural clauses: CMP-INIT - a comparator (or set) given to a constructor is the one stored, swap exchanges comparator and elements together; CMP-OBJ - every '
+        'results': [r_cmp, r_ci, r_inv, r_stable, r_node, r_nm, r_np, r_search, r_mo] + r_w,
+        'explanation': 'NODE-POS: insert(node) reports the position of the insertion it performed on every path, refused or not.  C03 as stated (same elements / results as std::set over histories) is not decided.  Decided structural clauses: CMP-INIT - a comparator (or set) given to a constructor is the one stored, swap exchanges comparator and elements together; CMP-OBJ - every '
                        'ordering or equivalence decision uses the stored comparator object (no default-constructed temporary); SORT-INV - every bulk '
                        'writer fed with caller data re-establishes sorted+unique (stable sort, merge when appending, duplicate removal) before returning; '
                        'STABLE - the first inserted of equivalent elements survives; NODE / NODE-MOVE - insert(node) empties the node only if the insertion happened, and its value is moved from only where the insertion happens (never into a temporary built before the lookup); '
